@@ -31,7 +31,7 @@ Lemma unsound_pass_spec_8_1 :
   names_apart sp81_unsound = false /\
   exists genv gout rs sk stk,
     eval_globals (pfns p81) 60 (pglobals p81) [] [] = Ok genv gout /\
-    (exists out, ref_test (pfns p81) 60 genv (SAssert (eqz (call0 3) 20)) = Fault FAssert out) /\
+    (exists out, ref_test (pfns p81) 60 genv (SAssert (eqz (call0 3%N) 20%Z)) = Fault FAssert out) /\
     run_interp 60 sp81_unsound [] = TDone rs sk stk /\ all_passed rs = true.
 Proof.
   split; [vm_compute; reflexivity|]. eexists _, _, _, _, _. split; [vm_compute; reflexivity|]. split.
